@@ -18,6 +18,7 @@ import (
 	"runtime"
 	"runtime/debug"
 	"runtime/pprof"
+	"sort"
 	"strings"
 	"time"
 
@@ -75,6 +76,16 @@ func rtEvent() {
 	case "gc":
 		runtime.GC()
 		debug.FreeOSMemory()
+		// reuse what the collection freed: small objects of the usual size classes, filled with garbage
+		for k := 0; k < 600; k++ {
+			b := make([]byte, 16+(k%8)*16)
+			for j := range b {
+				b[j] = 0xa5
+			}
+			rtSink = append(rtSink, b)
+		}
+		rtSink = rtSink[:0]
+		runtime.GC()
 	case "grow":
 		growStack(6000) // ~2 MB of frames: the goroutine stack is reallocated and copied
 	case "stack":
@@ -113,33 +124,63 @@ type RCu struct {
 	N int
 }
 
+// the event happens after the last use of the receiver: the callback's own frame then no longer keeps the
+// object alive, only the generated frame below does
 func (r *RCu) UnmarshalJSON(b []byte) error {
-	rtEvent()
 	r.S = string(b)
 	r.N = len(b)
+	rtEvent()
 	return nil
 }
 
 type RCt string
 
 func (r *RCt) UnmarshalText(b []byte) error {
-	rtEvent()
 	*r = RCt("t:" + string(b))
+	rtEvent()
 	return nil
 }
 
 type RCm struct{ S string }
 
 func (r RCm) MarshalJSON() ([]byte, error) {
+	out := []byte(`{"m":"` + r.S + `"}`)
 	rtEvent()
-	return []byte(`{"m":"` + r.S + `"}`), nil
+	return out, nil
 }
 
 type RCk struct{ K string }
 
 func (r RCk) MarshalText() ([]byte, error) {
+	out := []byte("k" + r.K)
 	rtEvent()
-	return []byte("k" + r.K), nil
+	return out, nil
+}
+
+// map key types whose pointer-receiver UnmarshalText is a call-out while the freshly allocated key is only held by generated code
+type RCkey struct {
+	Name string
+	Seq  int
+}
+
+func (r *RCkey) UnmarshalText(b []byte) error {
+	r.Name = "key-" + string(b)
+	r.Seq = len(b)
+	rtEvent()
+	return nil
+}
+
+type RCkeyP struct {
+	P *string
+	N int
+}
+
+func (r *RCkeyP) UnmarshalText(b []byte) error {
+	s := "p-" + string(b)
+	r.P = &s
+	r.N = len(b)
+	rtEvent()
+	return nil
 }
 
 type rtDecStruct struct {
@@ -190,6 +231,32 @@ func rtRun(prog string) (string, error) {
 		}
 		runtime.GC()
 		return showValue(reflect.ValueOf(v)), nil
+	case "dec_mapkeys":
+		doc := `{"alpha":"` + rtLong + `","beta":"b","gamma":"c"}`
+		var v map[RCkey]string
+		if err := sonic.UnmarshalString(doc, &v); err != nil {
+			return "", err
+		}
+		runtime.GC()
+		return showValue(reflect.ValueOf(v)), nil
+	case "dec_mapkeys_ptr":
+		doc := `{"alpha":1,"beta":2,"gamma":3}`
+		var v map[RCkeyP]int
+		if err := sonic.UnmarshalString(doc, &v); err != nil {
+			return "", err
+		}
+		runtime.GC()
+		// keys hold pointers: render through them
+		var items []string
+		for k, n := range v {
+			if k.P == nil {
+				items = append(items, fmt.Sprint("<nil>:", n))
+			} else {
+				items = append(items, fmt.Sprint(*k.P, "/", k.N, ":", n))
+			}
+		}
+		sort.Strings(items)
+		return strings.Join(items, " "), nil
 	case "dec_iface":
 		doc := `{"x":{"u":1},"y":[{"u":2},{"u":3}]}`
 		v := map[string]interface{}{"x": &RCu{}, "y": &[]RCu{}}
